@@ -380,7 +380,13 @@ func (r *renderer) expr(n *Node) {
 			r.sp()
 			r.t("=")
 			r.sp()
-			r.expr(n.Sub[i+1])
+			// a heredoc ends with a newline, which separates items here: anything that continues
+			// after it must be inside parentheses
+			if v := n.Sub[i+1]; containsHeredoc(v) && !(v.K == "tpl" && v.S != "q") {
+				r.wrapped(v, true)
+			} else {
+				r.expr(v)
+			}
 		}
 		if r.l.Mode == 5 && len(n.Sub) > 0 {
 			r.w("\n")
@@ -513,6 +519,18 @@ func (r *renderer) expr(n *Node) {
 	default:
 		panic("render: unknown node kind " + n.K)
 	}
+}
+
+func containsHeredoc(n *Node) bool {
+	if n.K == "tpl" && (n.S == "h" || n.S == "hf") {
+		return true
+	}
+	for _, s := range n.Sub {
+		if containsHeredoc(s) {
+			return true
+		}
+	}
+	return false
 }
 
 // Render produces native-syntax source text for the expression.
